@@ -47,7 +47,7 @@ IRREGULAR = {"nan_to_num_nan", "nan_to_num_inf", "clamp_max", "clamp_min", "copy
 def plan(tier, seed):
     items = [it for it in W.cost_table() if it[0] not in SKIP]
     items = [(n, d, c) for n, d, c in items]
-    return [{"i": i, "items": b} for i, b in enumerate(W.pack(items, NSHARDS[tier]))]
+    return [{"i": i, "items": b} for i, b in enumerate(W.pack(items, NSHARDS[tier]))] + [{"operators": True}]
 
 
 def to_rational(x):
@@ -118,6 +118,8 @@ def sym_result(op, res_, subs):
 def run_shard(spec, tier, seed):
     import sympy
 
+    if spec.get("operators"):
+        return run_operators(tier, seed)
     res = Result()
     npoints = 3 if tier == "quick" else 8
     for opname, dim in spec["items"]:
@@ -258,6 +260,97 @@ def run_shard(spec, tier, seed):
                         if len(res.samples) < 2 and compared:
                             res.sample({"op": op.name, "cell": cell, "expression": str(sres)[:300], "points_compared": compared})
     return res
+
+
+def run_operators(tier, seed):
+    """operator and in-place spellings on symbolic vectors, evaluated at regular points against the same spellings
+    on 60-digit objects"""
+    import copy
+
+    import sympy
+
+    res = Result()
+    r = gen.rng(seed, "C08ops")
+    forms = {
+        "v+w": lambda v, w, k: v + w, "v-w": lambda v, w, k: v - w, "v*k": lambda v, w, k: v * k, "k*v": lambda v, w, k: k * v,
+        "v/k": lambda v, w, k: v / k, "-v": lambda v, w, k: -v, "+v": lambda v, w, k: +v,
+        "v+=w": lambda v, w, k: _ip(v, "__iadd__", w), "v-=w": lambda v, w, k: _ip(v, "__isub__", w),
+        "v*=k": lambda v, w, k: _ip(v, "__imul__", k), "v/=k": lambda v, w, k: _ip(v, "__itruediv__", k),
+    }
+    scal = {"v@w": lambda v, w, k: v @ w, "abs(v)": lambda v, w, k: abs(v), "v**2": lambda v, w, k: v**2}
+    for dim in (2, 3, 4):
+        for s_self in R.SYSTEMS[dim]:
+            for s_other in ([R.SYSTEMS[dim][0], R.SYSTEMS[dim][-1], s_self] if tier == "quick" else R.SYSTEMS[dim]):
+                mom = r.random() < 0.5
+                for fname, f in {**forms, **scal}.items():
+                    sv, ssyms = sym_vector(s_self, mom, "a")
+                    sw, osyms = sym_vector(s_other, False, "b")
+                    kq = gen.dyadic(r, 0.5, 3)
+                    res.evaluations += 1
+                    cell = f"op:{fname}|{dim}|{R.sysname(s_self)}|{R.sysname(s_other)}|{'mom' if mom else 'gen'}"
+                    try:
+                        sres = f(sv, sw, to_rational(kq))
+                    except Exception as e:
+                        res.violation(f"C08/symbolic-call-raises op={fname}", {"cell": cell, "exc": f"{type(e).__name__}: {e}"[:300]})
+                        continue
+                    for rep in range(2 if tier == "quick" else 5):
+                        a_rv = gen.vec4(r, core=True, causal="timelike", forward=True)[0] if dim == 4 else gen.vec(r, dim, core=True)[0]
+                        b_rv = gen.vec4(r, core=True, causal="timelike", forward=True)[0] if dim == 4 else gen.vec(r, dim, core=True)[0]
+                        if fname in ("v-w", "v-=w", "-v") and dim == 4 and (s_self[2] == "tau" or s_other[2] == "tau"):
+                            continue  # negative times are not representable in tau storage
+                        try:
+                            al, bl = LVec(a_rv, s_self, mom), LVec(b_rv, s_other, False)
+                            al.exact_coords(), bl.exact_coords()
+                        except R.NotRepresentable:
+                            continue
+                        WITNESS.reset()
+                        try:
+                            num = f(E.mat_mp(al), E.mat_mp(bl), Q(kq))
+                        except Exception:
+                            continue
+                        if WITNESS.events.keys() & IRREGULAR:
+                            res.count("skip_point_uses_convention")
+                            continue
+                        subs = dict(zip(ssyms, [to_rational(c) for c in al.exact_coords()]))
+                        subs.update(zip(osyms, [to_rational(c) for c in bl.exact_coords()]))
+
+                        class _O:  # minimal op description for sym_result
+                            result = "scalar" if fname in scal else "vec"
+                            name = fname
+                        try:
+                            sym = sym_result(_O, sres, subs)
+                        except Exception as e:
+                            res.violation(f"C08/expression-does-not-evaluate op={fname}", {"cell": cell, "exc": f"{type(e).__name__}: {e}"[:300]})
+                            break
+                        unit = max(abs(c) for c in list(a_rv.comps()) + list(b_rv.comps()))
+                        if fname in scal:
+                            nv = num.v if type(num) is Q else mpf(num)
+                            err = abs(sym - nv) / max(abs(nv), unit**2)
+                        else:
+                            nres = E.VecResult(num)
+                            ssys, stored, smom, sdim = sym
+                            if ssys != nres.system:
+                                res.violation(f"C08/expression-disagrees-with-numeric-backend op={fname}",
+                                              {"cell": cell, "why": f"result system {R.sysname(ssys)} vs {R.sysname(nres.system)}"})
+                                break
+                            try:
+                                srv = R.from_coords(ssys, stored)
+                            except R.NotRepresentable:
+                                continue
+                            err = max(abs(p - q) for p, q in zip(srv.comps(), nres.rv.comps())) / (unit * max(1, kq))
+                        res.err("sympy-vs-mp:operators", err)
+                        if not err <= TOL:
+                            res.violation(f"C08/expression-disagrees-with-numeric-backend op={fname}",
+                                          {"cell": cell, "why": f"rel_error {mpmath.nstr(err, 5)}", "expr": str(sres)[:300]})
+                            break
+                        res.cell(cell)
+    res.sample({"part": "operators", "forms": list(forms) + list(scal)})
+    return res
+
+
+def _ip(v, meth, other):
+    out = getattr(v, meth)(other)
+    return out
 
 
 def finalize(total, tier, seed):
